@@ -475,3 +475,26 @@ def check(run, prog, tier):
         run.ob("C19-e", "wakeup-writes", bool(flags) and not bad, "async_runtime_wakeup() may skip the write under %s; the flag is cleared only after the eventfd was read" % sorted(flags) if flags and not bad else
                "async_runtime_wakeup() can return success without writing the eventfd (path %s) and %s" % (p[:6], "; ".join(bad) if bad else "no flag protocol was recognised"), wk.file, wk.line, "async_runtime_wakeup",
                what="a wake-up can be reported as posted without reaching the eventfd while the loop has already consumed the earlier one: the backend sleeps through it (%s)" % ("; ".join(bad) if bad else "unconditional bypass"))
+
+    # ---- C19-f the ring cursors of the queue wrap at the capacity
+    run.rule("C19-f", "async_queue: head and tail advance modulo the capacity the ring was allocated with - `(x + 1) % capacity` (or a reset to 0 at the capacity); a wrap by `& mask` visits every slot only for a power of two, so it needs a test of the capacity (`capacity & (capacity - 1)`) in the function that creates the queue. Otherwise accepted messages are overwritten unread and others delivered twice, with the drop counter saying nothing", 3)
+    nf_ = 0
+    pow2_checked = any(any(y.get("k") == "Bin" and y.get("op") == "&" and any(z.get("k") == "Bin" and z.get("op") == "-" and const_val(z["R"]) == 1 for z in walk(y)) for y in walk(c))
+                       for f in qfuncs if f.name == "async_queue_create" for bid in f.reachable() for c in [f.branch_cond(f.blocks[bid])] if c is not None)
+    for f in sorted(qfuncs, key=lambda x: x.line):
+        for j, (b, i, n) in enumerate([x for x in f.nodes() if x[2].get("k") == "Asg" and strip(x[2]["L"]).get("k") == "Mem" and strip(x[2]["L"]).get("f") in ("head", "tail") and strip(x[2]["L"]).get("rec") in QREC]):
+            r = strip(n["R"])
+            if const_val(r) == 0 and n.get("op") == "=":
+                continue
+            nf_ += 1
+            run.saw(f)
+            if n.get("op") == "=" and r.get("k") == "Bin" and r.get("op") == "%" and any(y.get("k") == "Mem" and y.get("f") == "capacity" for y in walk(r["R"])):
+                ok, why = True, "`%s` wraps at the capacity" % show(n)[:60]
+            elif n.get("op") == "=" and r.get("k") == "Bin" and r.get("op") == "&":
+                ok = pow2_checked
+                why = "`%s`: the mask wraps at the capacity because async_queue_create() tests it for a power of two" % show(n)[:60] if ok else \
+                    "`%s` (line %s) wraps with a mask, and async_queue_create() accepts any capacity: for one that is not a power of two the cursor skips slots - accepted messages are overwritten unread, others are handed over twice" % (show(n)[:60], n.get("l"))
+            else:
+                ok, why = None, "`%s` (line %s): a cursor update this rule does not read" % (show(n)[:60], n.get("l"))
+            run.ob("C19-f", "wrap:%s:%s:%d" % (f.name, strip(n["L"]).get("f"), j), ok, why, f.file, n.get("l"), f.name, what="%s advances a queue cursor without wrapping at the capacity" % f.name)
+    run.need(nf_ >= 3, "cursor updates of the queue (found %d)" % nf_)
